@@ -13,7 +13,9 @@ import numpy as np
 
 from vf.common import pick
 
-WAVES = ["haar", "db2", "db4", "sym3", "coif1"]
+# (orthogonal families and biorthogonal ones: the operator algebra and the adjoint clause hold
+# for every wavelet; C10's isometry / inverse clauses are stated for the orthogonal ones only)
+WAVES = ["haar", "db2", "db4", "sym3", "coif1", "bior2.2", "rbio1.3", "bior4.4"]
 
 
 # ---------------------------------------------------------------- helpers --
@@ -286,6 +288,9 @@ def _kernel_params(rng, nd):
         kernel = "kaiser_bessel"
         param = ([float(np.round(rng.uniform(1, 12), 3)) for _ in range(nd)]
                  if rng.random() < 0.3 else float(np.round(rng.uniform(1, 12), 3)))
+        if rng.random() < 0.12:
+            # a negative shape parameter: I0 is even, the kernel is that of |beta|
+            param = [-p_ for p_ in param] if isinstance(param, list) else -param
     W = [1, 1.5, 2, 2.5, 3, 3.7, 4]
     width = ([float(pick(rng, W)) for _ in range(nd)] if rng.random() < 0.35
              else pick(rng, W))
@@ -388,8 +393,13 @@ def mk_Circshift(rng, ishape, maxn):
         axes = [int(a) for a in rng.permutation(axes)]
     k = nd if axes is None else len(axes)
     shift = [int(rng.integers(-2 * maxn, 2 * maxn + 1)) for _ in range(k)]
-    return {"op": "Circshift", "ishape": ishape, "oshape": list(ishape), "shift": shift,
-            "axes": axes}
+    d = {"op": "Circshift", "ishape": ishape, "oshape": list(ishape), "shift": shift,
+         "axes": axes}
+    if rng.random() < 0.2:
+        # shifts read from a header as unsigned NumPy integers
+        d["shift"] = [abs(s_) for s_ in shift]
+        d["shift_dtype"] = pick(rng, ["uint8", "uint16", "uint64"])
+    return d
 
 
 def wavelet_coeff_shape(shape, wave, axes, level):
@@ -1257,7 +1267,9 @@ def build(d):
     if op == "Upsample":
         return L.Upsample(d["oshape"], d["factors"], shift=d["shift"])
     if op == "Circshift":
-        return L.Circshift(d["ishape"], d["shift"], axes=d["axes"])
+        sh_ = d["shift"] if not d.get("shift_dtype") else np.array(d["shift"],
+                                                                   dtype=d["shift_dtype"])
+        return L.Circshift(d["ishape"], sh_, axes=d["axes"])
     if op == "Wavelet":
         return L.Wavelet(d["ishape"], axes=d["axes"], wave_name=d["wave"], level=d["level"])
     if op == "InverseWavelet":
